@@ -82,7 +82,7 @@ func (h *Handler) forceRelease(clientID []byte, serverIP netip.Addr, chAddr net.
 	opts[packet.DHCP4OptionMessage] = []byte("netfilter release")
 
 	go func() {
-		err := h.sendDeclineReleasePacket(packet.DHCP4Release, clientID, serverIP, chAddr, clientIP, xid, nil)
+		err := h.sendDeclineReleasePacket(packet.DHCP4Release, clientID, serverIP, chAddr, clientIP, xid, opts)
 		if err != nil {
 			fmt.Println("dhcp4: error in send release packet ", err)
 		}
